@@ -61,3 +61,32 @@ Theorem C08_pruned_result_is_stable_under_laxer_parameters :
     prune_struct cs_strict (compute shape a vals minv cs_lax).
 Proof. intros. apply prune_absorbs. assumption. Qed.
 Print Assumptions C08_pruned_result_is_stable_under_laxer_parameters.
+
+(* With min_delta = 0 the same-parameter case DOES hold, and is proved for every adjacency,
+   every input and every criteria list without a positive min_delta (min_npix, min_peak,
+   min_sum, contains_seeds): prune() with the very criteria a dendrogram was computed with
+   changes nothing.  (With min_delta > 0 it is false: C08_refuted_same_parameters, K1.)
+   This discharges, for such criteria, the hypotheses that C07_noop_after_compute leaves to
+   the caller. *)
+From Dendro Require Import PruneSame.
+Theorem C08_same_criteria_without_min_delta_change_nothing :
+  forall shape per vals minv cs,
+    Forall (fun n => 0 < n) shape -> nodelta cs = true ->
+    prune_struct cs (compute shape (AdjGrid per) vals minv cs) = compute shape (AdjGrid per) vals minv cs.
+Proof. exact grid_prune_same. Qed.
+Print Assumptions C08_same_criteria_without_min_delta_change_nothing.
+
+Theorem C08_same_criteria_without_min_delta_user_adjacency :
+  forall shape tb vals minv cs,
+    (forall a b, In b (nbrs_custom tb a) -> In a (nbrs_custom tb b)) -> nodelta cs = true ->
+    prune_struct cs (compute shape (AdjCustom tb) vals minv cs) = compute shape (AdjCustom tb) vals minv cs.
+Proof. exact custom_prune_same. Qed.
+Print Assumptions C08_same_criteria_without_min_delta_user_adjacency.
+
+(* non-vacuity: min_npix = 2 removes two of the five structures the lax run has *)
+Example C08_same_criteria_premises_hold :
+  let v := [Some 5; Some 4; Some 1; Some 6; Some 5; Some 1; Some 2] in
+  nodelta [MinDelta 0; MinNpix 2 1] = true /\
+  length (fnodes (compute [7] (AdjGrid [false]) v None [MinDelta 0; MinNpix 0 1])) = 5%nat /\
+  length (fnodes (compute [7] (AdjGrid [false]) v None [MinDelta 0; MinNpix 2 1])) = 3%nat.
+Proof. vm_compute. repeat split. Qed.
